@@ -586,6 +586,30 @@ fn run_case(target: &str, seed: u64, len: usize) -> (String, String) {
             drive!(|ph: signal::Phase<_>| ph.square(), |p: f64| if p < 0.5 { 1.0 } else { -1.0 });
             drive!(|ph: signal::Phase<_>| ph.sine(), |p: f64| (2.0 * std::f64::consts::PI * p).sin());
         }
+        "Detector::next" | "Detector::new" | "Detector::set_attack_frames" | "Detector::set_release_frames" => {
+            use dasp_envelope::Detector;
+            // stereo peak follower against the recurrence env' = d + g (env - d), g chosen PER CHANNEL (attack if env < d), with
+            // attack / release changed mid-stream; a time of 0 frames gives gain 0 (envelope == detected value exactly)
+            let g = |n: f32| -> f32 { if n == 0.0 { 0.0 } else { std::f32::consts::E.powf(-1.0 / n) } };
+            let times = [0.0f32, 1.0, 3.0, 7.0, 0.5];
+            let (mut at, mut rt) = (times[(seed % 5) as usize], times[((seed / 5) % 5) as usize]);
+            let mut det: Detector<[f32; 2], _> = Detector::peak(at, rt);
+            let mut env = [0.0f32; 2];
+            for k in 0..(len + 6) {
+                if k == 3 { at = times[((seed / 3) % 5) as usize]; det.set_attack_frames(at); }
+                if k == 5 { rt = times[((seed / 7) % 5) as usize]; det.set_release_frames(rt); }
+                let x = [((rng.next() % 200) as f32 - 100.0) / 128.0, ((rng.next() % 200) as f32 - 100.0) / 128.0];
+                let out = det.next(x);
+                for c in 0..2 {
+                    let d = x[c].abs();
+                    let gain = if env[c] < d { g(at) } else { g(rt) };
+                    let want = d + (env[c] - d) * gain;
+                    rec!((out[c] - want).abs() <= 1e-6, true);
+                    if gain == 0.0 { rec!(out[c], d); }
+                    env[c] = out[c];
+                }
+            }
+        }
         "Rectangle::window" | "Hann::window" => {
             use dasp_window::{Hann, Rectangle, Window as WF};
             // the rectangle window is 1 EVERYWHERE (whatever the phase, also outside [0, 1)), in every sample format
@@ -756,7 +780,7 @@ const TARGETS: &[&str] = &[
     "OffsetAmpPerChannel::next", "Map::next", "ZipMap::next", "Inspect::next", "ClipAmp::next", "Delay::next",
     "RefMut::next", "FromIterator::next", "FromInterleavedSamplesIterator::next", "UntilExhausted::next",
     "Take::next", "IntoInterleavedSamples::next_sample", "Buffered::next", "Buffered::next_frames",
-    "BranchRefA::next", "BranchRcA::next", "Converter::next", "MulHz::next", "Linear::interpolate", "Windower::size_hint", "SharedNode::next_frame", "Hz::step", "Window::next",
+    "BranchRefA::next", "BranchRcA::next", "Converter::next", "MulHz::next", "Linear::interpolate", "Windower::size_hint", "SharedNode::next_frame", "Hz::step", "Window::next", "Detector::next", "Rectangle::window",
 ];
 
 fn field<'a>(js: &'a str, k: &str) -> &'a str {
